@@ -10,7 +10,7 @@ def derived_hashseed(seed):
     return 1000 + (seed * 7919) % 100000
 
 
-def plan_shards(tier, seed, n_quick, n_thorough, budget_quick, budget_thorough, shards_quick=16, shards_thorough=48,
+def plan_shards(tier, seed, n_quick, n_thorough, budget_quick, budget_thorough, shards_quick=16, shards_thorough=32,
                 ties=False, pops=False):
     """Standard shard plan: every shard gets its own hash seed / schedule policy / case stream."""
     ns = shards_quick if tier == "quick" else shards_thorough
@@ -21,7 +21,7 @@ def plan_shards(tier, seed, n_quick, n_thorough, budget_quick, budget_thorough, 
         s = {
             "hashseed": hs_pool[i % len(hs_pool)],
             "n": n_quick if tier == "quick" else n_thorough,
-            "time_budget": budget_quick if tier == "quick" else budget_thorough,
+            "time_budget": budget_quick if tier == "quick" else min(budget_thorough, 300),
             "stream": f"{seed}:{i}",
             "sched_seed": seed * 1000 + i,
         }
@@ -61,3 +61,29 @@ def loop(spec, ctx, gen_case, run_case, api0="case"):
 
             ctx.skip(api0, f"harness-exception:{type(e).__name__}")
             ctx.extra.setdefault("harness_errors", []).append(traceback.format_exc()[-1500:])
+
+
+def run_m9(spec, ctx):
+    """M9 shard: the repository's own tests under this property's monitors."""
+    import os
+
+    from rv import pytest_plugin
+
+    workdir = os.path.dirname(os.path.abspath(spec.get("_spec_path", "."))) if spec.get("_spec_path") else "."
+    res = pytest_plugin.run_under_monitors(ctx.prop, ctx.repo_root, os.environ.get("RV_WORKDIR", "/dev/shm"))
+    if res.get("fatal"):
+        ctx.skip("m9", "m9:" + res["fatal"][:200])
+        return
+    ctx.merge(res)
+    ctx.shape["m9:tests-run"] += int(res.get("tests_collected") or 0)
+    ctx.extra["m9"] = {"tests_collected": res.get("tests_collected"), "tests_failed": res.get("tests_failed"),
+                       "pytest_tail": res.get("pytest_tail"), "genlm_src": res.get("genlm_src"), "wall_s": res.get("pytest_wall_s")}
+    ctx.case("m9:" + ctx.prop, True, ["m9:suite"])
+
+
+def add_m9_shard(specs, tier):
+    if tier == "thorough":
+        s = dict(specs[0])
+        s.update({"m9": True, "n": 0, "time_budget": 1500, "hashseed": 0, "tie": "native", "pop": "native", "stream": "m9"})
+        specs.append(s)
+    return specs
